@@ -355,11 +355,75 @@ theorem endAddr_le_area (s : Skip) (off e n : Nat) (h : (n : Int) ≤ capacity s
   have := endAddr_le_of_cfree s n (off + hdrLen n) (e - off - hdrLen n) (by omega)
   omega
 
+/-- the image after the preparation step `phase3a`, as a pure function -/
+def pre3 (u : Nat) (m2 : Bytes) (off n : Nat) : Bytes :=
+  if n < 255 then m2
+  else if (off + 1) / u ≠ (off + 2) / u ∧ (off + 2) / u = (off + 3) / u then (m2.set (off + 2) 0).set (off + 3) 0
+  else
+    let x := if (off + 2) / u ≠ (off + 1) / u then m2.set (off + 2) (n / 256) else m2
+    if (off + 3) / u ≠ (off + 1) / u then x.set (off + 3) (n % 256) else x
+
+theorem pre3_length (u : Nat) (m2 : Bytes) (off n : Nat) : (pre3 u m2 off n).length = m2.length := by
+  unfold pre3; split
+  · rfl
+  · split
+    · simp
+    · simp only; split <;> split <;> simp
+
+/-- the preparation step touches only the two extra bytes of the 3-byte length field -/
+theorem pre3_get (u : Nat) (m2 : Bytes) (off n x : Nat) (h2 : x ≠ off + 2) (h3 : x ≠ off + 3) :
+    (pre3 u m2 off n)[x]? = m2[x]? := by
+  unfold pre3; split
+  · rfl
+  · split
+    · rw [get_set_ne _ _ _ _ (fun e => h3 e.symm), get_set_ne _ _ _ _ (fun e => h2 e.symm)]
+    · simp only; split <;> split <;>
+        simp only [get_set_ne _ _ _ _ (fun e => h3 e.symm), get_set_ne _ _ _ _ (fun e => h2 e.symm)]
+
+/-- the final length field overwrites whatever the preparation step stored -/
+theorem final_over_pre3 (u : Nat) (m2 : Bytes) (off n : Nat) (a b c : Nat) :
+    (((pre3 u m2 off n).set (off + 1) a).set (off + 2) b).set (off + 3) c
+      = ((m2.set (off + 1) a).set (off + 2) b).set (off + 3) c := by
+  apply List.ext_getElem?
+  intro x
+  simp only [List.getElem?_set, List.length_set, pre3_length]
+  by_cases h3 : off + 3 = x
+  · simp [h3]
+  · by_cases h2 : off + 2 = x
+    · simp [h2, h3]
+    · by_cases h1 : off + 1 = x
+      · simp [h1, h2, h3]
+      · simp only [if_neg h3, if_neg h2, if_neg h1]
+        exact pre3_get u m2 off n x (Ne.symm h2) (Ne.symm h3)
+
+theorem phase3a_ok (c : Cfg) (m2 : Bytes) (off n : Nat) (h : 255 ≤ n → off + 3 < m2.length) :
+    phase3a c m2 off n = .ok (pre3 c.unit m2 off n) := by
+  unfold phase3a pre3
+  split
+  · rfl
+  · rename_i hn
+    have hl := h (by omega)
+    split
+    · rw [wr_ok c m2 _ _ (by omega), Py.bind_ok, wr_ok c _ _ _ (by simp; omega)]
+    · split
+      · rw [wr_ok c m2 _ _ (by omega), Py.bind_ok]
+        simp only
+        split
+        · rw [wr_ok c _ _ _ (by simp; omega)]
+        · rfl
+      · rw [Py.bind_ok]
+        simp only
+        split
+        · rw [wr_ok c _ _ _ (by omega)]
+        · rfl
+
 /-- everything later proofs need to know about the three images of a write -/
-structure WriteSpec (c : Cfg) (m : Bytes) (L : Layout) (data : Bytes) (m1 m2 m3 : Bytes) : Prop where
+structure WriteSpec (c : Cfg) (m : Bytes) (L : Layout) (data : Bytes) (m1 m2 m3a m3 : Bytes) : Prop where
   p1 : phase1 c m L.off = .ok m1
   p2 : phase2 c m1 L.off L.skip L.areaEnd data = .ok m2
-  p3 : phase3 c m2 L.off data.length = .ok m3
+  p3a : phase3a c m2 L.off data.length = .ok m3a
+  p3 : phase3 c m3a L.off data.length = .ok m3
+  m3a_eq : m3a = pre3 c.unit m2 L.off data.length
   m1_eq : m1 = m.set (L.off + 1) 0
   len2 : m2.length = m.length
   /-- phase 2 changes only free bytes of the area behind the length field -/
@@ -374,7 +438,7 @@ structure WriteSpec (c : Cfg) (m : Bytes) (L : Layout) (data : Bytes) (m1 m2 m3 
 theorem write_spec (c : Cfg) (m : Bytes) (L : Layout) (data : Bytes)
     (hcapEq : L.cap = capacity L.skip L.off L.areaEnd) (harea : L.areaEnd ≤ m.length)
     (hcap : (data.length : Int) ≤ L.cap) :
-    ∃ m1 m2 m3, WriteSpec c m L data m1 m2 m3 := by
+    ∃ m1 m2 m3a m3, WriteSpec c m L data m1 m2 m3a m3 := by
   rw [hcapEq] at hcap
   obtain ⟨hfit, hend⟩ := endAddr_le_area L.skip L.off L.areaEnd data.length hcap
   have hh2 : 2 ≤ hdrLen data.length := by unfold hdrLen; split <;> omega
@@ -410,33 +474,41 @@ theorem write_spec (c : Cfg) (m : Bytes) (L : Layout) (data : Bytes)
     · exact ⟨m2', rfl, by rw [hl2, l1], hchg, hf⟩
   obtain ⟨m2, hp2, hlen2, hm2same, hm2val⟩ := hphase2
   have hp1 : phase1 c m L.off = .ok (m.set (L.off + 1) 0) := wr_ok c m _ _ (by omega)
+  have hp3a : phase3a c m2 L.off data.length = .ok (pre3 c.unit m2 L.off data.length) :=
+    phase3a_ok c m2 L.off data.length (fun h => by
+      have h4 : hdrLen data.length = 4 := by unfold hdrLen; rw [if_neg (by omega)]
+      omega)
+  have hl3a := pre3_length c.unit m2 L.off data.length
   by_cases hn : data.length < 255
-  · refine ⟨_, m2, m2.set (L.off + 1) data.length, hp1, hp2, ?_, rfl, hlen2, hm2same, hm2val, by simp [hn], hfit, hend, harea⟩
-    unfold phase3; rw [if_pos hn]; exact wr_ok c m2 _ _ (by omega)
+  · have hpre : pre3 c.unit m2 L.off data.length = m2 := by unfold pre3; rw [if_pos hn]
+    refine ⟨_, m2, _, m2.set (L.off + 1) data.length, hp1, hp2, hp3a, ?_, rfl, rfl, hlen2, hm2same, hm2val,
+      by simp [hn], hfit, hend, harea⟩
+    rw [hpre]; unfold phase3; rw [if_pos hn]; exact wr_ok c m2 _ _ (by omega)
   · have h4 : hdrLen data.length = 4 := by unfold hdrLen; simp [hn]
-    refine ⟨_, m2, ((m2.set (L.off + 1) 0xFF).set (L.off + 2) (data.length / 256)).set (L.off + 3) (data.length % 256),
-      hp1, hp2, ?_, rfl, hlen2, hm2same, hm2val, by simp [hn], hfit, hend, harea⟩
+    refine ⟨_, m2, _, ((m2.set (L.off + 1) 0xFF).set (L.off + 2) (data.length / 256)).set (L.off + 3) (data.length % 256),
+      hp1, hp2, hp3a, ?_, rfl, rfl, hlen2, hm2same, hm2val, by simp [hn], hfit, hend, harea⟩
     unfold phase3; rw [if_neg hn]
-    rw [wr_ok c m2 _ _ (by omega), Py.bind_ok, wr_ok c _ _ _ (by simp; omega), Py.bind_ok, wr_ok c _ _ _ (by simp; omega)]
+    rw [wr_ok c _ _ _ (by omega), Py.bind_ok, wr_ok c _ _ _ (by simp; omega), Py.bind_ok,
+      wr_ok c _ _ _ (by simp; omega), final_over_pre3]
 
 
-theorem WriteSpec.len1 {c m L data m1 m2 m3} (w : WriteSpec c m L data m1 m2 m3) : m1.length = m.length := by
+theorem WriteSpec.len1 {c m L data m1 m2 m3a m3} (w : WriteSpec c m L data m1 m2 m3a m3) : m1.length = m.length := by
   rw [w.m1_eq]; simp
 
-theorem WriteSpec.len3 {c m L data m1 m2 m3} (w : WriteSpec c m L data m1 m2 m3) : m3.length = m.length := by
+theorem WriteSpec.len3 {c m L data m1 m2 m3a m3} (w : WriteSpec c m L data m1 m2 m3a m3) : m3.length = m.length := by
   rw [w.m3_eq, ← w.len2]; split <;> simp
 
 theorem hdrLen_ge (n : Nat) : 2 ≤ hdrLen n := by unfold hdrLen; split <;> omega
 
 /-- phase 2 leaves everything in front of the value untouched -/
-theorem WriteSpec.m2_below {c m L data m1 m2 m3} (w : WriteSpec c m L data m1 m2 m3) (x : Nat)
+theorem WriteSpec.m2_below {c m L data m1 m2 m3a m3} (w : WriteSpec c m L data m1 m2 m3a m3) (x : Nat)
     (h : x < L.off + hdrLen data.length) : m2[x]? = m1[x]? := by
   by_cases hx : m2[x]? = m1[x]?
   · exact hx
   · have := w.m2_same x hx; omega
 
 /-- the final image differs from phase 2 only inside the length field -/
-theorem WriteSpec.m3_out {c m L data m1 m2 m3} (w : WriteSpec c m L data m1 m2 m3) (x : Nat)
+theorem WriteSpec.m3_out {c m L data m1 m2 m3a m3} (w : WriteSpec c m L data m1 m2 m3a m3) (x : Nat)
     (h : x < L.off + 1 ∨ L.off + hdrLen data.length ≤ x) : m3[x]? = m2[x]? := by
   rw [w.m3_eq]
   split
@@ -447,7 +519,7 @@ theorem WriteSpec.m3_out {c m L data m1 m2 m3} (w : WriteSpec c m L data m1 m2 m
     have : hdrLen data.length = 4 := by unfold hdrLen; simp [hn]
     rw [get_set_ne _ _ _ _ (by omega), get_set_ne _ _ _ _ (by omega), get_set_ne _ _ _ _ (by omega)]
 
-theorem WriteSpec.below {c m L data m1 m2 m3} (w : WriteSpec c m L data m1 m2 m3) (x : Nat) (h : x < L.off + 1) :
+theorem WriteSpec.below {c m L data m1 m2 m3a m3} (w : WriteSpec c m L data m1 m2 m3a m3) (x : Nat) (h : x < L.off + 1) :
     m1[x]? = m[x]? ∧ m2[x]? = m[x]? ∧ m3[x]? = m[x]? := by
   have h1 : m1[x]? = m[x]? := by rw [w.m1_eq]; exact get_set_ne _ _ _ _ (by omega)
   have hh := hdrLen_ge data.length
@@ -463,7 +535,7 @@ theorem pre_stable (c : Cfg) (m m' : Bytes) (L : Layout) (hwf : WF c m L)
   rw [← rdB_congr c (L.off + 1) m m' h] at hdr
   exact walkPre_mono c (rdB_le c _ m') _ _ _ _ _ _ hdr
 
-theorem readLen_written {c m L data m1 m2 m3} (w : WriteSpec c m L data m1 m2 m3) :
+theorem readLen_written {c m L data m1 m2 m3a m3} (w : WriteSpec c m L data m1 m2 m3a m3) :
     readLen (rd c m3) (L.off + 1) = .ok (data.length, L.off + hdrLen data.length) := by
   have hfit := w.fits
   have hl2 := w.len2
@@ -491,9 +563,9 @@ theorem readLen_written {c m L data m1 m2 m3} (w : WriteSpec c m L data m1 m2 m3
 
 theorem roundtrip (c : Cfg) (m : Bytes) (L : Layout) (data : Bytes)
     (hr : ReadsAs c m L) (hwf : WF c m L) (hcap : (data.length : Int) ≤ L.cap) :
-    ∃ m1 m2 m3, WriteSpec c m L data m1 m2 m3 ∧ ReadsAs c m3 { L with ndef := data } := by
-  obtain ⟨m1, m2, m3, w⟩ := write_spec c m L data hr.cap hwf.2.2.2.1 hcap
-  refine ⟨m1, m2, m3, w, ?_⟩
+    ∃ m1 m2 m3a m3, WriteSpec c m L data m1 m2 m3a m3 ∧ ReadsAs c m3 { L with ndef := data } := by
+  obtain ⟨m1, m2, m3a, m3, w⟩ := write_spec c m L data hr.cap hwf.2.2.2.1 hcap
+  refine ⟨m1, m2, m3a, m3, w, ?_⟩
   have hcc := hwf.1
   have hst := hwf.2.2.1
   have hb : ∀ x, x < L.off + 1 → m3[x]? = m[x]? := fun x hx => (w.below x hx).2.2
